@@ -21,7 +21,7 @@ OPS = ['get_int', 'get_sec', 'get_uv', 'get_si', 'set_int', 'set_sec', 'del_int'
 
 
 def shards(tier, seed):
-    k = 1 if tier == 'quick' else 8
+    k = 3 if tier == 'quick' else 8
     out = [{'name': f'm1-{tp}-{j}', 'kind': 'm1', 'type': tp, 'histories': 120 * k} for tp in ('int', 'fxp', 'fld') for j in range(3)]
     for c in [(2, 0, False), (3, 1, False), (3, 1, True)]:
         out.append({'name': config_name(c), 'kind': 'sim', 'cfg': list(c), 'type': 'int', 'histories': 8 * k})
